@@ -2,19 +2,22 @@
 from .. import gen, lang
 from ..harness import case_rng
 from ..runner import digest, REF_OK
-from . import common
+from . import common, assignmatrix
 from .common import evaluate, history_problem
 
 ID = 'C01'
 LEVEL = 'exploration'
 TIERS = {
-    'quick': {'cases': 576 + 1400, 'wall': 85, 'chunk': 10},
-    'thorough': {'cases': 576 + 40000, 'wall': 1200, 'chunk': 20},
+    'quick': {'cases': 576 + 84 + 1400, 'wall': 85, 'chunk': 10},
+    'thorough': {'cases': 576 + 84 + 40000, 'wall': 1200, 'chunk': 20},
 }
 RULE = ('cases 0..575: the ELEMENT-STORE MATRIX (seed independent): element type x storage class {literal, stack literal, '
         'dynamic, global literal, global dynamic, parameter} x length {1,8,9,17} x right-hand side {literal, variable} x '
         'index {literal, variable, expression}; every second element and the last two are stored to, some compound-'
-        'assigned, then all are read back. Further cases: Random(f"{seed}:C01:{i}") picks a swarm configuration (feature subset, sizes, word '
+        'assigned, then all are read back. Cases 576..659: the ASSIGNMENT MATRIX - `v = E(v)` and `v += E(v)` for a global, '
+        'local and parameter variable, E reading v directly, through a function that looks at the global, inside array '
+        'literals, under .length, indexing, casts and unary minus (a variable used as its own scratch register shows). '
+        'Further cases: Random(f"{seed}:C01:{i}") picks a swarm configuration (feature subset, sizes, word '
         'size in {2,3,4,8}) and generates a well-typed HiD program without try/preempt/?? plus an '
         'argument vector; the program is rendered with a seeded layout, compiled by the real hidc, '
         'run on the SVM (generous stack; for every 3rd case also at the measured minimal stack; '
@@ -145,10 +148,37 @@ def el_case(idx):
     return res
 
 
+AS_JOBS = assignmatrix.jobs(False)
+
+
+def as_case(k):
+    job = AS_JOBS[k]
+    p, argv = assignmatrix.program(job, False)
+    W = (2, 3, 4, 8)[k % 4]
+    base = dict(W=W, stack=common.GENEROUS, style_seed=None, poison_seed=None)
+    found, evs = problems_of(p, argv, [base])
+    ev = evs[0]
+    res = {'key': digest('as', *map(str, job)), 'nontrivial': ev.res is not None, 'violations': [],
+           'counters': common.run_counters(ev), 'outcomes': {}, 'faults_fired': {},
+           'probes': dict(ev.res.probes) if ev.res is not None else {}, 'max': {}}
+    res['counters']['assignment_matrix'] = 1
+    res['outcomes'][f'ref:{ev.ref.outcome}'] = 1
+    res['digest'] = digest(res['key'], ev.res.history if ev.res is not None else None, [f[:2] for f in found])
+    if found:
+        cls, detail, bad = found[0]
+        res['violations'].append({'cls': cls, 'detail': f'assignment matrix {job}: {detail}', 'fingerprint': None,
+                                  'payload': common.payload(p, argv, bad, {'assign_job': list(job)}),
+                                  'sample': common.sample_of(p, argv, bad)})
+    return res
+
+
 def case(seed, idx, tier):
     if idx < len(EL_JOBS):
         return el_case(idx)
     idx -= len(EL_JOBS)
+    if idx < len(AS_JOBS):
+        return as_case(idx)
+    idx -= len(AS_JOBS)
     rnd = case_rng(seed, ID, idx)
     cfg = gen.swarm_cfg(rnd)
     prog, argv = gen.gen_program(rnd, cfg)
